@@ -910,6 +910,17 @@ impl Mp4TrackWriter {
         sample: &Mp4Sample,
         movie_timescale: u32,
     ) -> Result<u64> {
+        // The track header stores the duration in movie ticks in 64 bits: a sample that would
+        // push it beyond that cannot be represented, so refuse it before anything is touched.
+        let track_ticks = (self.trak.mdia.mdhd.duration as u128 + sample.duration as u128)
+            * movie_timescale as u128
+            / self.trak.mdia.mdhd.timescale as u128;
+        if track_ticks > u64::MAX as u128 {
+            return Err(Error::InvalidData(
+                "track duration does not fit in 64 bits of movie ticks",
+            ));
+        }
+
         // Do the only fallible step first: when this sample completes the chunk, write the
         // buffered chunk followed by the sample before any table is touched. If the stream
         // fails the call is rejected as a whole: nothing about the sample was recorded, the
